@@ -154,12 +154,27 @@ func TestC09(t *testing.T) {
 	rapid.Check(t, func(rt *rapid.T) {
 		var sc *Scenario
 		var info pip10Info
-		fam := rapid.IntRange(0, 3).Draw(rt, "family")
-		if fam == 0 {
+		fam := rapid.IntRange(0, 4).Draw(rt, "family")
+		switch fam {
+		case 0:
 			cfg := DefaultCfg()
 			cfg.CrossSnapshot = rapid.Bool().Draw(rt, "cross")
 			sc = GenModernScenario(rt, cfg)
-		} else {
+		case 4: // every era incl. the legacy graders, the PEG bank and the 2.0 switch
+			sc = GenTimelineScenario(rt, DefaultCfg())
+			if Open("C09/avg-window") {
+				// the timeline ends in the PIP-10 era with a short window: stop before it
+				sc.Chain.Tip = sc.Era.PIP10 - 1
+				var keep []*Block
+				for _, b := range sc.Chain.Blocks {
+					if b.Height <= sc.Chain.Tip {
+						keep = append(keep, b)
+					}
+				}
+				sc.Chain.Blocks = keep
+				sc.Chain.idx = nil
+			}
+		default:
 			sc, info = genPIP10Scenario(rt, st)
 		}
 		// restart heights: 1-4, anywhere in the chain, biased to active heights
